@@ -6,7 +6,7 @@ import os
 import z3
 
 from . import symfs, step
-from .pathsym import PathSym, par_explore
+from .pathsym import PathSym, par_explore, member_of
 from .universe import World
 
 CRASHV = z3.Int("crash_at")
@@ -207,7 +207,7 @@ def explore_crashes(w_args, menu_fn, recover=True, procs=None):
     def worker(idx):
         w = World(**w_args)
         menu = menu_fn(w)
-        ps = PathSym(w.inv() + [z3.Or([step.CALLV == n for n in idx]), CRASHV >= 0])
+        ps = PathSym(w.inv() + [member_of(step.CALLV, idx), CRASHV >= 0])
         recs = ps.explore(lambda p: run_crash(p, w, menu, recover=recover))
         w.cleanup()
         return recs, ps.st.as_dict(), len(menu)
